@@ -149,7 +149,44 @@ func c04Scenario(rng *rand.Rand) *prodScenario {
 }
 
 // c16Scenario: sizes straddling the limits, every flush trigger combination.
+// c16DelayedRetry: only Flush.Frequency is configured, the cluster answers more slowly than the
+// frequency, one of the first requests is refused with a retriable code, and messages for the same and
+// for other partitions keep arriving meanwhile. Then the input stops: everything must still be flushed.
+func c16DelayedRetry(rng *rand.Rand) *prodScenario {
+	sc := &prodScenario{Topics: []string{"t"}, Partitioner: "manual", CloseMode: "close", ChannelBuf: -1, Acks: sarama.WaitForLocal, RetryMax: 3, Brokers: 1}
+	sc.Parts = 2 + rng.Intn(2)
+	sc.Version = []sarama.KafkaVersion{sarama.V0_10_0_0, sarama.V0_11_0_0, sarama.V2_1_0_0}[rng.Intn(3)]
+	sc.MaxMessageBytes = 20000
+	sc.MaxRequestSize = 256 << 10
+	sc.FlushFreq = time.Duration([]int{3, 6, 10}[rng.Intn(3)]) * time.Millisecond
+	sc.ProduceDelayMs = []int{15, 25, 40}[rng.Intn(3)]
+	sc.Faults = make([]int, rng.Intn(3))
+	sc.Faults = append(sc.Faults, fRetryNoAppend)
+	if rng.Intn(2) == 0 {
+		sc.Faults = append(sc.Faults, fOk, fRetryNoAppend)
+	}
+	for _, f := range sc.Faults {
+		sc.FaultCodes = append(sc.FaultCodes, pickCode(f, rng))
+	}
+	nmsg := 4 + rng.Intn(8)
+	for i := 0; i < nmsg; i++ {
+		ms := &msgSpec{ID: i, Topic: "t", Part: int32(rng.Intn(sc.Parts)), KeyNil: true, PauseUs: 1000 * (1 + rng.Intn(12))}
+		if i < 3 && rng.Intn(2) == 0 {
+			ms.Part = 0
+		}
+		ms.Value = append([]byte(fmt.Sprintf("%d:", i)), randBytes(rng, 5+rng.Intn(40))...)
+		sc.Msgs = append(sc.Msgs, ms)
+	}
+	sc.Submitters = 1
+	sc.StopInputEarly = true
+	sc.ExpectAtCluster = nmsg
+	return sc
+}
+
 func c16Scenario(rng *rand.Rand) *prodScenario {
+	if rng.Intn(5) == 0 {
+		return c16DelayedRetry(rng)
+	}
 	sc := &prodScenario{Topics: []string{"t"}, Partitioner: "manual", CloseMode: "close", ChannelBuf: -1, Acks: sarama.WaitForLocal, RetryMax: 2}
 	sc.Brokers = 1
 	sc.Parts = 1 + rng.Intn(4)
@@ -181,6 +218,8 @@ func c16Scenario(rng *rand.Rand) *prodScenario {
 		}
 	}
 	limit := sc.MaxMessageBytes
+	// record headers (0.11+): they take part in the size accounting
+	withHeaders := sc.Version.IsAtLeast(sarama.V0_11_0_0) && rng.Intn(5) < 2
 	for i := 0; i < nmsg; i++ {
 		ms := &msgSpec{ID: i, Topic: "t", Part: int32(rng.Intn(sc.Parts)), KeyNil: true}
 		idp := []byte(fmt.Sprintf("%d:", i))
@@ -211,6 +250,11 @@ func c16Scenario(rng *rand.Rand) *prodScenario {
 		}
 		ms.Value = append(idp, randBytes(rng, total-len(idp))...)
 		ms.Sub = 0
+		if withHeaders {
+			for h := 0; h < 1+rng.Intn(3); h++ {
+				ms.Headers = append(ms.Headers, sarama.RecordHeader{Key: randBytes(rng, 1+rng.Intn(6)), Value: randBytes(rng, rng.Intn(12))})
+			}
+		}
 		sc.Msgs = append(sc.Msgs, ms)
 	}
 	sc.Submitters = 1
@@ -302,8 +346,8 @@ func oracleC16(res *prodResult, vs *violSet, rec *proto.Rec) bool {
 			if !tooLarge {
 				vs.add("oversize-not-rejected", vtag, fmt.Sprintf("message id=%d with key+value=%d > MaxMessageBytes=%d ended with success=%v err=%v instead of ErrMessageSizeTooLarge", o.ID, kv, sc.MaxMessageBytes, o.Success, o.Err))
 			}
-		} else if kv+overhead <= sc.MaxMessageBytes && tooLarge {
-			vs.add("spurious-reject", vtag, fmt.Sprintf("message id=%d with byte size %d <= MaxMessageBytes=%d was rejected as too large", o.ID, kv+overhead, sc.MaxMessageBytes))
+		} else if kv+overhead+headerBytes(sr.Spec) <= sc.MaxMessageBytes && tooLarge {
+			vs.add("spurious-reject", vtag, fmt.Sprintf("message id=%d with byte size %d <= MaxMessageBytes=%d was rejected as too large", o.ID, kv+overhead+headerBytes(sr.Spec), sc.MaxMessageBytes))
 		} else if tooLarge {
 			nontrivial = true
 		}
@@ -336,10 +380,21 @@ func oracleC16(res *prodResult, vs *violSet, rec *proto.Rec) bool {
 	return nontrivial
 }
 
+// headerBytes: what record headers add to a message's size estimate (key, value and two maximal varints each).
+func headerBytes(ms *msgSpec) int {
+	n := 0
+	for _, h := range ms.Headers {
+		n += len(h.Key) + len(h.Value) + 2*5
+	}
+	return n
+}
+
 func recordsAtCluster(res *prodResult) int {
 	n := 0
 	for _, p := range res.produced {
-		n += p.NRecs
+		if len(res.sc.Faults) == 0 || p.Appended {
+			n += p.NRecs
+		}
 	}
 	return n
 }
